@@ -31,6 +31,11 @@ Theorem C10_shared_writes_once : shared_writes_ok mergedir_shared_writes = true.
 Proof. exact mergedir_shared_writes_ok. Qed.
 Print Assumptions C10_shared_writes_once.
 
+(* … and none of the goroutines MergeDir starts assigns to a captured variable (source table of this run) *)
+Theorem C10_no_captured_writes : mergedir_captured_writes = [].
+Proof. exact mergedir_no_captured_writes. Qed.
+Print Assumptions C10_no_captured_writes.
+
 (* the walk before the repair loses the file listed after a sub-directory *)
 Theorem C10_walk_complete_unfixed_refuted :
   reach true [[122%N]] unfixed_witness /\ ~ In [[122%N]] (walk_unfixed true [] unfixed_witness)
